@@ -29,9 +29,11 @@ META = dict(
                "(C12_history_self_consistent, _independent, _reachable, _vs_fresh_reachable; C12_guarded_reset_refuted); load(save m) succeeds and "
                "preserves kind, features, dimension, sources, observation models, parameters for every well-formed model whose "
                "instance name is its kind; save/load/save is the identity on float32 declared-shape models; refutations for custom "
-               "instance names, default-constructed univariate models, scalar-noise shape and float64 parameters.",
-    level_note="Trusted: Coq kernel; json / repr float round trip and torch.tensor float32 cast (tested on sampled bit patterns, "
-               "not proved); torch tolist / view; the graph-shape conditions of C12_self_consistent_state on population variables and "
+               "instance names, default-constructed univariate models, scalar-noise shape and float64 parameters.  Float side: the "
+               "executable binary32 rounding r32 is idempotent on every rational (so save/load is a fixed point after one round with no "
+               "hypothesis on the cast), F32.round_bin is idempotent and monotone wherever defined and equals r32 on the normal range.",
+    level_note="Trusted: Coq kernel; json / repr float round trip and torch.tensor float32 cast being round-to-nearest-even "
+               "(tested on sampled bit patterns, exact ties and boundaries, also through the real load; not proved); torch tolist / view; the graph-shape conditions of C12_self_consistent_state on population variables and "
                "their priors (checked on the shipped DAGs at run time); "
                "DAG node names other than parameters, hyper-parameters and mixing_matrix in a hand-written `parameters` section are "
                "outside the model.",
@@ -46,7 +48,7 @@ OBLIGATIONS = [
     # Io/F32.v (round_bin / f32 / f64 / store32, the cast of the ingestion model of C14 / C20): idempotent, monotone, and the
     # C14 age collision for every pair of ages of the interval
     "C12_round_bin_idempotent", "C12_round_bin_monotone", "C12_store32_monotone", "C12_store32_defined",
-    "C12_store32_collision_interval",
+    "C12_store32_collision_interval", "C12_f32_is_r32", "C12_r32_monotone_normal",
     "C12_instance_name_refuted", "C12_instance_name_case_refuted", "C12_univariate_default_refuted",
     "C12_scalar_noise_shape_refuted", "C12_float64_refuted",
     # composition with C01 (coq/theories/Compose/): the store hypotheses discharged on the real State model
